@@ -190,5 +190,137 @@ theorem updateStates_ok (P : Project) (g : G) (t : Nat) :
       intro x hx
       exact h x (by simp [hx])
 
+/-! ## effect of a task body -/
+
+/-- The write loop of a body (all products except the `skipIdx`-th). -/
+def writeAll (F : BodyFn) (t : TaskSpec) (src : Option Nat) (ds : List (Option Nat)) (skipIdx : Option Nat)
+    (l : List (Nat × Nat)) (fs : FS) : FS :=
+  l.foldl (fun fs (p, i) => if some i == skipIdx then fs else insert fs p (F t.id i src ds)) fs
+
+theorem runBody_eq (F : BodyFn) (t : TaskSpec) (fs : FS) :
+    runBody F t fs =
+      (let src := lookup fs t.src
+       let ds := t.deps.map (lookup fs)
+       if ds.any (·.isNone) then (fs, true) else
+       match t.beh with
+       | .ok => (writeAll F t src ds none t.prods.zipIdx fs, false)
+       | .raisesEarly => (fs, true)
+       | .raisesLate => (writeAll F t src ds none t.prods.zipIdx fs, true)
+       | .omits k => (writeAll F t src ds (some k) t.prods.zipIdx fs, false)
+       | .loadFails => (fs, true)
+       | .saveFails => (fs, true)) := rfl
+
+theorem writeAll_frame (F : BodyFn) (t : TaskSpec) (src : Option Nat) (ds : List (Option Nat)) (sk : Option Nat) :
+    ∀ (l : List (Nat × Nat)) (fs : FS) (q : Nat), (∀ e ∈ l, e.1 ≠ q) →
+      lookup (writeAll F t src ds sk l fs) q = lookup fs q
+  | [], _, _, _ => rfl
+  | (p, i) :: l, fs, q, h => by
+    unfold writeAll
+    simp only [List.foldl_cons]
+    have ih := writeAll_frame F t src ds sk l
+    unfold writeAll at ih
+    rw [ih _ q (fun e he => h e (by simp [he]))]
+    split
+    · rfl
+    · exact lookup_insert_ne _ _ (fun hq => h (p, i) (by simp) hq.symm)
+
+theorem writeAll_keeps (F : BodyFn) (t : TaskSpec) (src : Option Nat) (ds : List (Option Nat)) (sk : Option Nat) :
+    ∀ (l : List (Nat × Nat)) (fs : FS) (q : Nat), (lookup fs q).isSome = true →
+      (lookup (writeAll F t src ds sk l fs) q).isSome = true
+  | [], _, _, h => h
+  | (p, i) :: l, fs, q, h => by
+    unfold writeAll
+    simp only [List.foldl_cons]
+    have ih := writeAll_keeps F t src ds sk l
+    unfold writeAll at ih
+    apply ih
+    split
+    · exact h
+    · rw [lookup_insert]; split <;> simp [h]
+
+theorem writeAll_val (F : BodyFn) (t : TaskSpec) (src : Option Nat) (ds : List (Option Nat)) :
+    ∀ (l : List (Nat × Nat)) (fs : FS) (p i : Nat), (l.map (·.1)).Nodup → (p, i) ∈ l →
+      lookup (writeAll F t src ds none l fs) p = some (F t.id i src ds)
+  | [], _, _, _, _, h => by cases h
+  | (p0, i0) :: l, fs, p, i, hnd, hmem => by
+    simp only [List.map_cons, List.nodup_cons] at hnd
+    rcases List.mem_cons.1 hmem with heq | hmem
+    · have hp : p = p0 := (Prod.mk.inj heq).1
+      have hi : i = i0 := (Prod.mk.inj heq).2
+      subst hp hi
+      have hfr := writeAll_frame F t src ds none l (insert fs p (F t.id i src ds)) p
+        (fun e he heq => hnd.1 (heq ▸ List.mem_map_of_mem he))
+      unfold writeAll at hfr ⊢
+      simp only [List.foldl_cons]
+      have : (some i == (none : Option Nat)) = false := rfl
+      simp only [this, Bool.false_eq_true, if_false]
+      rw [hfr]; exact lookup_insert_self _ _ _
+    · have ih := writeAll_val F t src ds l (if some i0 == (none : Option Nat) then fs else insert fs p0 (F t.id i0 src ds)) p i hnd.2 hmem
+      unfold writeAll at ih ⊢
+      simp only [List.foldl_cons]
+      exact ih
+
+theorem mem_zipIdx_fst {α} {l : List α} {p : α} {i : Nat} (h : (p, i) ∈ l.zipIdx) : p ∈ l := by
+  have := List.mem_zipIdx h
+  simp only [Nat.zero_le, Nat.sub_zero, true_and] at this
+  obtain ⟨_, hx⟩ := this
+  rw [hx]; exact List.getElem_mem _
+
+theorem zipIdx_map_fst {α} (l : List α) (n : Nat) : (l.zipIdx n).map (·.1) = l := by
+  induction l generalizing n with
+  | nil => rfl
+  | cons a l ih => simp [List.zipIdx_cons, ih]
+
+/-- The body writes nothing but the task's own products. -/
+theorem runBody_frame (F : BodyFn) (t : TaskSpec) (fs : FS) (q : Nat) (hq : q ∉ t.prods) :
+    lookup (runBody F t fs).1 q = lookup fs q := by
+  have hfr : ∀ sk src ds, lookup (writeAll F t src ds sk t.prods.zipIdx fs) q = lookup fs q :=
+    fun sk src ds => writeAll_frame F t src ds sk _ fs q
+      (fun e he heq => hq (heq ▸ mem_zipIdx_fst (i := e.2) (by simpa using he)))
+  rw [runBody_eq]
+  simp only
+  split
+  · rfl
+  · split <;> simp [hfr]
+
+/-- The body never removes a file. -/
+theorem runBody_keeps (F : BodyFn) (t : TaskSpec) (fs : FS) (q : Nat) (h : (lookup fs q).isSome = true) :
+    (lookup (runBody F t fs).1 q).isSome = true := by
+  have hk : ∀ sk src ds, (lookup (writeAll F t src ds sk t.prods.zipIdx fs) q).isSome = true :=
+    fun sk src ds => writeAll_keeps F t src ds sk _ fs q h
+  rw [runBody_eq]
+  simp only
+  split
+  · exact h
+  · split <;> simp [hk, h]
+
+/-- A body that returns normally and is not of the "forgets a product" kind has written
+`F t i (module content) (dependency contents)` into its `i`-th product, the arguments being read
+before the first write. -/
+theorem runBody_val (F : BodyFn) (t : TaskSpec) (fs : FS) (hnd : t.prods.Nodup)
+    (hbeh : ∀ k, t.beh ≠ .omits k) (hret : (runBody F t fs).2 = false) (p i : Nat)
+    (hmem : (p, i) ∈ t.prods.zipIdx) :
+    lookup (runBody F t fs).1 p = some (F t.id i (lookup fs t.src) (t.deps.map (lookup fs))) ∧
+    ∀ d ∈ t.deps, (lookup fs d).isSome = true := by
+  rw [runBody_eq] at hret ⊢
+  simp only at hret ⊢
+  split
+  · rename_i h; simp [h] at hret
+  · rename_i hall
+    refine ⟨?_, ?_⟩
+    · cases hb : t.beh with
+      | ok => simp only; exact writeAll_val F t _ _ _ fs p i (by rw [zipIdx_map_fst]; exact hnd) hmem
+      | omits k => exact absurd hb (hbeh k)
+      | raisesEarly => simp [hall, hb] at hret
+      | raisesLate => simp [hall, hb] at hret
+      | loadFails => simp [hall, hb] at hret
+      | saveFails => simp [hall, hb] at hret
+    · intro d hd
+      simp only [List.any_map, List.any_eq_true, Function.comp_apply, not_exists, not_and] at hall
+      have := hall d hd
+      cases hl : lookup fs d with
+      | none => simp [hl] at this
+      | some _ => rfl
+
 end Engine
 end Pytask
